@@ -4,7 +4,94 @@ use crate::props::search_common::*;
 use crate::world::net::{par_enumerate, GenSpec, LenMode, Net};
 use crate::world::sw::{Rate, Trav, TurnCfg, World};
 use routee_compass_core::model::unit::*;
+use routee_compass_core::model::network::{Edge, Vertex};
+use routee_compass_core::model::state::state_feature::StateFeature;
+use routee_compass_core::model::state::state_model::StateModel;
+use routee_compass_core::model::traversal::state::state_variable::StateVar;
+use routee_compass_core::model::traversal::traversal_model::TraversalModel;
+use routee_compass_core::model::traversal::traversal_model_error::TraversalModelError;
 use serde_json::{json, Value};
+use std::sync::Arc;
+
+/// a traversal model of the user's that refuses one edge once the accumulated first state feature is beyond a limit (a range
+/// limit, a time window): a search may fail with that error, but whatever route it does return must still be a walk
+struct RefusesBeyond {
+    inner: Arc<dyn TraversalModel>,
+    edge: usize,
+    limit: f64,
+}
+impl TraversalModel for RefusesBeyond {
+    fn state_features(&self) -> Vec<(String, StateFeature)> {
+        self.inner.state_features()
+    }
+    fn traverse_edge(&self, t: (&Vertex, &Edge, &Vertex), s: &mut Vec<StateVar>, sm: &StateModel) -> Result<(), TraversalModelError> {
+        if t.1.edge_id.0 == self.edge && s.first().map_or(false, |x| x.0 > self.limit) {
+            return Err(TraversalModelError::TraversalModelFailure(format!("edge {} cannot be entered beyond {}", self.edge, self.limit)));
+        }
+        self.inner.traverse_edge(t, s, sm)
+    }
+    fn estimate_traversal(&self, od: (&Vertex, &Vertex), s: &mut Vec<StateVar>, sm: &StateModel) -> Result<(), TraversalModelError> {
+        self.inner.estimate_traversal(od, s, sm)
+    }
+}
+
+/// lane networks under single-via k = 2, 3 with a model that refuses one edge beyond a limit: every edge x three limits
+fn refusing_model_sweep(st: &mut Stats) {
+    let lanes: Vec<Net> = lane_nets().into_iter().filter(|n| n.m() <= 8).collect();
+    let n_lanes = lanes.len() as u64;
+    let st2 = crate::engine::par_blocks(n_lanes, 4, |lo, hi, st| {
+        for i in lo..hi {
+            let net = &lanes[i as usize];
+            st.states += 1;
+            let w = World::distance(net.clone());
+            for e in 0..net.m() {
+                for limit in [0.5, 1.5, 2.5, 3.5] {
+                    for k in [2usize, 3] {
+                        let algo = Algo::SingleVia { k, under: Box::new(Algo::Dijkstra), sim: Some(Sim::AcceptAll), term: None };
+                        let orient = Orient::Vertex { o: 0, d: Some(net.n - 1) };
+                        st.evaluations += 1;
+                        st.transitions += 1;
+                        st.traces += 1;
+                        let mut si = match w.si() {
+                            Ok(si) => si,
+                            Err(_) => continue,
+                        };
+                        si.traversal_model = Arc::new(RefusesBeyond { inner: si.traversal_model.clone(), edge: e, limit });
+                        let out = run_search(&si, &algo, &orient, false, &json!({}));
+                        st.outcome(out.kind());
+                        let comp = format!("{}.vertex_od.forward.model_refusing_an_edge", algo.component());
+                        let case = || json!({"world": w, "algo": algo, "orient": orient, "reverse": false, "extra": {"traversal_model_refuses_edge": e, "beyond_distance": limit}});
+                        match &out {
+                            Outcome::Panic(p) => st.violation(&comp, "no_panic", net.size(), || p.clone(), case),
+                            Outcome::Ok { routes, .. } => {
+                                if routes.len() > 1 {
+                                    st.nontrivial += 1;
+                                }
+                                let mut ok = true;
+                                for (ri, r) in routes.iter().enumerate() {
+                                    let ids = route_ids(r);
+                                    if ids.is_empty() {
+                                        continue;
+                                    }
+                                    for (c, d) in route_structure(net, &ids, &orient, false) {
+                                        ok = false;
+                                        st.violation(&comp, c, net.size() + ids.len() as u64, || format!("route #{} {:?}: {}", ri, ids, d), case);
+                                    }
+                                }
+                                if ok {
+                                    st.pass("routes_are_walks_under_a_refusing_model");
+                                }
+                            }
+                            // the search may fail with the model's error: no route, no claim
+                            _ => {}
+                        }
+                    }
+                }
+            }
+        }
+    });
+    st.merge(st2);
+}
 
 pub fn algos(tier: Tier) -> Vec<Algo> {
     let mut v = vec![
@@ -422,12 +509,14 @@ pub fn run(tier: Tier) -> i32 {
         }
     });
     st.merge(st4);
+    refusing_model_sweep(&mut st);
     // Yen's algorithm can hang on this tree; its routes are put through the same clauses inside the sandbox of C13
     st.notes.insert("yens: route clauses of C01 are evaluated on Yen's routes by the sandboxed C13 check (signature yens.*/route_*)".into());
     let mut desc: Vec<String> = specs.iter().map(|s| s.describe()).collect();
     desc.extend(rspecs.iter().map(|s| format!("{} under A* weight factors 2/10 (re-opening sweep)", s.describe())));
     desc.extend(sspecs.iter().map(|s| format!("{} under plain A* (re-opening sweep with an inconsistent estimate)", s.describe())));
     desc.push(format!("{} lane networks (origin stub, 2-4 lanes of 1-3 edges, destination stub) under single-via k = 2..4, by vertex and by edge", n_lanes));
+    desc.push("lane networks of up to eight edges under single-via k = 2, 3 with a traversal model that refuses one edge beyond an accumulated distance (every edge x four limits)".to_string());
     finish(
         &info,
         st,
